@@ -145,12 +145,15 @@ func SliceOff(base, s []byte) int {
 }
 
 func SamePtr(a, b interface{}) bool { return a == b }
-func IsSymbolic(x interface{}) bool { return false }
-func LibStaticWrites() int          { return 0 }
-func EndPath()                      { panic(zzEnd{}) }
-func WrotePrint() bool              { return false }
-func Concretize(x int) int          { return x }
-func ConcretizeByte(x byte) byte    { return x }
+
+// SameArray: both pointers address elements of the same array allocation (engine only).
+func SameArray(a, b interface{}) bool { panic("SameArray is engine-only") }
+func IsSymbolic(x interface{}) bool   { return false }
+func LibStaticWrites() int            { return 0 }
+func EndPath()                        { panic(zzEnd{}) }
+func WrotePrint() bool                { return false }
+func Concretize(x int) int            { return x }
+func ConcretizeByte(x byte) byte      { return x }
 
 // ---- non-intrinsic helpers (interpreted by the engine like any other code) ----
 
